@@ -76,6 +76,17 @@ func c05Raw(text string) *h.Failure {
 		return nil
 	}
 	m := gm.FromGeom(g)
+	emptyRing := false
+	m.Walk(func(n gm.G) {
+		for _, r := range n.Rings {
+			if len(r) == 0 {
+				emptyRing = true
+			}
+		}
+	})
+	if emptyRing {
+		return nil // "POLYGON(EMPTY)": rings without positions are outside C05's domain (the library's parser extension)
+	}
 	if !finiteModel(m) {
 		return h.Failf("wkt/parsed-non-finite", "UnmarshalWKT accepted a text with a non-finite numeral: %q", text)
 	}
@@ -198,6 +209,24 @@ func c07Raw(data []byte) *h.Failure {
 	g2, err := geom.UnmarshalTWKB(b, geom.NoValidate{})
 	if err != nil {
 		return h.Failf("twkb/fixpoint-decode", "re-encoding a decoded TWKB does not decode: %v\ninput %x\nre-encoded %x", err, data, b)
+	}
+	emptyRing := false
+	m.Walk(func(n gm.G) {
+		for _, r := range n.Rings {
+			if len(r) == 0 {
+				emptyRing = true
+			}
+		}
+	})
+	if emptyRing {
+		return nil // rings without positions are outside the property's domain (valid geometries)
+	}
+	if m.IsEmpty() {
+		// tolerated loss: member structure and coordinate type of a geometry without any ordinate
+		if g2.Type() != g.Type() || !g2.IsEmpty() {
+			return h.Failf("twkb/fixpoint-empty", "an empty %s re-encodes to %s", g.Type(), g2.AsText())
+		}
+		return nil
 	}
 	if d := gm.Diff(c07StripEmpties(negZeroToZero(m)), c07StripEmpties(negZeroToZero(gm.FromGeom(g2)))); d != "" {
 		// rings whose last vertex equals the first lose/gain a closing position: not comparable
